@@ -66,6 +66,11 @@ def find_top(s, token):
                 j += 2 if s[j] == "\\" else 1
             i = j + 1
             continue
+        if ch == "'" and i + 2 < n and (s[i + 2] == "'" or (s[i + 1] == "\\" and "'" in s[i + 2:i + 12])):
+            # char literal ('"', '\'', '\u{1f}'), not a lifetime
+            j = s.index("'", i + 2 if s[i + 1] != "\\" else i + 3)
+            i = j + 1
+            continue
         if depth == 0 and s.startswith(token, i):
             return i
         if ch == "-" and i + 1 < n and s[i + 1] == ">":
@@ -86,6 +91,9 @@ def last_balanced_paren(s):
     in_str = False
     while i >= 0:
         ch = s[i]
+        if not in_str and ch == "'" and i >= 2 and s[i - 2] == "'" and s[i - 1] in "\"()[]{}<>":
+            i -= 3          # char literal holding a quote or a bracket
+            continue
         if ch == '"' and (i == 0 or s[i - 1] != "\\"):
             in_str = not in_str
         elif not in_str:
